@@ -16,13 +16,13 @@ Proof. intros H Ht. split; [exact (printable_roundtrip c dd e H Ht)|].
 
 Lemma roundtrip_of_source_eq (c : cfg) (dd : list string) (d : dtree) (e : expr) :
   wfn d = true -> src_ok d = true ->
-  parse c dd (unparse d) = Ok e -> expr_kf_ok e = true ->
+  parse c dd (unparse d) = Ok e ->
   exists e', parse c dd (to_python e) = Ok e' /\ e' = e /\ is_equal e e' = true.
-Proof. intros Wf Hs Hp Hk. exists e. split; [exact (roundtrip_of_source c dd d e Wf Hs Hp Hk)|split; [reflexivity|]].
+Proof. intros Wf Hs Hp. exists e. split; [exact (roundtrip_of_source c dd d e Wf Hs Hp)|split; [reflexivity|]].
   unfold parse in Hp. rewrite (lark_of_unparse d Wf) in Hp. unfold parse_tree in Hp.
   destruct (walk c dd (strip d)) as [e0|] eqn:Hw; [|discriminate Hp]. destruct (is_term e0); [|discriminate Hp].
   inversion Hp; subst e0.
-  exact (is_equal_refl_n c dd (S (esize e)) e (Nat.lt_succ_diag_r _) (built_printable c dd d e Wf Hs Hw Hk)). Qed.
+  exact (is_equal_refl_n c dd (S (esize e)) e (Nat.lt_succ_diag_r _) (built_printable c dd d e Wf Hs Hw)). Qed.
 
 (* ---- 'a < b < c' *)
 Definition chain_toks : list tok := [TName "a"; TSym "<"; TName "b"; TSym "<"; TName "c"].
@@ -45,52 +45,48 @@ Lemma chain_rejected :
   parse_tree chain_cfg ["a"; "b"; "c"] chain_tree = Err.
 Proof. repeat split; vm_compute; reflexivity. Qed.
 
-(* ---- round-trip witnesses *)
+(* ---- regressions of the five repaired round-trip defects (a6af5a7, e648ab6, 3753518, 181daac) *)
 Definition kcfg : cfg := mkcfg ["+"; "-"; "**"; "&"; "is_in"; "abs"].
 Definition kdd : list string := ["a"; "b"; "c"; "p"].
 
+(* (-0.0) ** 2 printed as -0.0 ** 2, read back as -(0.0 ** 2); now printed with its parentheses *)
 Definition negzero_src : dtree := DPower (DPar (DFactor "-" (DNum (TFloat (Some 0%Q))))) (DNum (TInt 2)).
 Definition negzero_e : expr := EOp "**" true false None [EVal (PFloat true 0%Q); EVal (PInt 2)].
-Definition negzero_e' : expr := EOp "-" true false None [EOp "**" true false None [EVal (PFloat false 0%Q); EVal (PInt 2)]].
-Lemma negzero_refuted :
+Lemma negzero_regression :
   wfn negzero_src = true /\ src_ok negzero_src = true /\
-  parse kcfg kdd (unparse negzero_src) = Ok negzero_e /\ parse kcfg kdd (to_python negzero_e) = Ok negzero_e' /\
-  is_equal negzero_e negzero_e' = false /\ expr_kf_ok negzero_e = false.
+  parse kcfg kdd (unparse negzero_src) = Ok negzero_e /\
+  to_python negzero_e = [TSym "("; TSym "-"; TFloat (Some 0%Q); TSym ")"; TSym "**"; TInt 2] /\
+  parse kcfg kdd (to_python negzero_e) = Ok negzero_e.
 Proof. repeat split; vm_compute; reflexivity. Qed.
 
+(* 1e400 + a became inf + a, which does not parse; the literal is now rejected *)
 Definition inf_src : dtree := DChain 8 (DNum (TFloat None)) [("+", DName "a")].
-Definition inf_e : expr := EOp "+" true false None [EVal (PInf false); ECol "a"].
-Lemma inf_refuted :
-  wfn inf_src = true /\ src_ok inf_src = true /\
-  parse kcfg kdd (unparse inf_src) = Ok inf_e /\ parse kcfg kdd (to_python inf_e) = Err /\ expr_kf_ok inf_e = false.
+Lemma inf_regression :
+  wfn inf_src = true /\ src_ok inf_src = true /\ parse kcfg kdd (unparse inf_src) = Err.
 Proof. repeat split; vm_compute; reflexivity. Qed.
 
+(* a.is_in([-1,]) printed as a.is_in([-1]) which did not parse; a.is_in([True]) was parsed to the EMPTY list *)
 Definition short_list_src : dtree :=
   DCall (DAttr (DName "a") "is_in") [DColl BBrack [DFactor "-" (DNum (TInt 1))] true] false.
 Definition short_list_e : expr := EOp "is_in" false true None [ECol "a"; EList [PInt (-1)]].
 Definition true_list_src : dtree := DCall (DAttr (DName "a") "is_in") [DColl BBrack [DConst "True"] false] false.
-Lemma short_list_refuted :
+Definition true_list_e : expr := EOp "is_in" false true None [ECol "a"; EList [PBool true]].
+Definition empty_list_src : dtree := DCall (DAttr (DName "a") "is_in") [DColl BBrack [] false] false.
+Lemma short_list_regression :
   wfn short_list_src = true /\ src_ok short_list_src = true /\
-  parse kcfg kdd (unparse short_list_src) = Ok short_list_e /\ parse kcfg kdd (to_python short_list_e) = Err /\
-  expr_kf_ok short_list_e = false /\
+  parse kcfg kdd (unparse short_list_src) = Ok short_list_e /\ parse kcfg kdd (to_python short_list_e) = Ok short_list_e /\
   wfn true_list_src = true /\ src_ok true_list_src = true /\
-  parse kcfg kdd (unparse true_list_src) = Ok (EOp "is_in" false true None [ECol "a"; EList []]).
+  parse kcfg kdd (unparse true_list_src) = Ok true_list_e /\ parse kcfg kdd (to_python true_list_e) = Ok true_list_e /\
+  parse kcfg kdd (unparse empty_list_src) = Ok (EOp "is_in" false true None [ECol "a"; EList []]).
 Proof. repeat split; vm_compute; reflexivity. Qed.
 
+(* (+p)(a, c) was accepted as the function "+"; a.__and__(b) built a & b: both are rejected now *)
 Definition called_operator_src : dtree := DCall (DPar (DFactor "+" (DName "p"))) [DName "a"; DName "c"] false.
-Definition called_operator_e : expr := EOp "+" false false None [ECol "a"; ECol "c"].
-Lemma called_operator_refuted :
-  wfn called_operator_src = true /\ src_ok called_operator_src = false /\
-  parse kcfg kdd (unparse called_operator_src) = Ok called_operator_e /\ expr_kf_ok called_operator_e = true /\
-  parse kcfg kdd (to_python called_operator_e) = Err.
-Proof. repeat split; vm_compute; reflexivity. Qed.
-
 Definition dunder_src : dtree := DCall (DAttr (DName "a") "__and__") [DName "b"] false.
-Definition dunder_e : expr := EOp "&" true false None [ECol "a"; ECol "b"].
-Lemma dunder_refuted :
-  wfn dunder_src = true /\ src_ok dunder_src = false /\
-  parse kcfg kdd (unparse dunder_src) = Ok dunder_e /\ expr_kf_ok dunder_e = true /\
-  parse kcfg kdd (to_python dunder_e) = Err.
+Lemma call_target_regression :
+  wfn called_operator_src = true /\ src_ok called_operator_src = true /\
+  parse kcfg kdd (unparse called_operator_src) = Err /\
+  wfn dunder_src = true /\ src_ok dunder_src = true /\ parse kcfg kdd (unparse dunder_src) = Err.
 Proof. repeat split; vm_compute; reflexivity. Qed.
 
 (* ---- a non-trivial instance of every guard:  not p and -a ** 2 + b.abs() * (c - 1) < 3 *)
@@ -115,7 +111,7 @@ Definition sample_e : expr :=
 
 Lemma sample_guards :
   wfn sample_src = true /\ src_ok sample_src = true /\
-  parse sample_cfg kdd (unparse sample_src) = Ok sample_e /\ expr_kf_ok sample_e = true /\
+  parse sample_cfg kdd (unparse sample_src) = Ok sample_e /\
   printable sample_cfg kdd sample_e = true /\ is_term sample_e = true /\
   py_meaning concrete_fsem sample_env (strip sample_src) = Some (PBool true) /\
   eval concrete_fsem sample_env sample_e = Some (PBool true).
